@@ -103,7 +103,8 @@ KeyOutcome(e, tT, tIT, tR, nn, pres, hh) ==
   LET k  == StrToBits(e.key)
       lk == Lookup(tT, tR, nn, k)
       isPresent == e.key \in pres
-      Out(r, c) == [reason |-> r, class |-> c, add |-> {}]
+      \* (hist: also what a refusing request may have pruned on its way)
+      Out(r, c) == [reason |-> r, class |-> c, add |-> IF nn > 0 /\ Len(k) = nn THEN BlindSibs(tT, tR, nn, k, <<>>) ELSE {}]
       \* the input class that names a finding: equal cells at a fork explain only a hidden key / value reference
       Cls(r) == LET kc == KeyClass(tT, tIT, tR, nn, k) IN
                 IF (kc = "twin" /\ r = "value:pruned") \/ (kc = "valueref" /\ r = "value:refs") THEN kc
@@ -130,7 +131,7 @@ KeyOutcome(e, tT, tIT, tR, nn, pres, hh) ==
              \* leak first: an earlier ACCEPTED request pruned that very occurrence, i.e. it passed the same fork on the
              \* other side and its own path survived - equal cells at that fork are not what hides the key
              IN IF pv.reason # "" THEN Out(pv.reason, IF leak THEN "leak" ELSE Cls(pv.reason))
-                ELSE [reason |-> "", class |-> "", add |-> pv.psp]
+                ELSE [reason |-> "", class |-> "", add |-> pv.psp \cup BlindSibs(tT, tR, nn, k, <<>>)]
 KeyStep(o) == IF o.reason # "" THEN Reject(o.reason, o.class) ELSE hist' = hist \cup o.add
 TKey == E.k = "Key" /\ UNCHANGED <<R, n, present, sess>> /\ KeyStep(KeyOutcome(E, T, IT, R, n, present, hist))
 
